@@ -163,6 +163,72 @@ Section Decoder.
     end.
 End Decoder.
 
+(* ---- the reader's memory across calls: blocks_read / blocks and the look-behind drop -----------
+   read_block_FileGz/Bz2/Lz4 keep decoding forward from max(blocks_read); with
+   READ_BLOCK_LOOKBACK_DROP every block older than the one just decoded is removed from `blocks`
+   (it stays in `blocks_read`).  A later request for such a block finds it in neither store, the
+   walk starts at max(blocks_read) > i, its loop body never runs and the answer is Done (release
+   build; the debug build panics).  [rs_next] = max(blocks_read)+1, 0 on a fresh reader. *)
+Record rstate (dstate : Type) := mk_rstate { rs_next : N; rs_dec : dstate; rs_store : list (N * list N) }.
+Arguments mk_rstate {dstate}.
+Arguments rs_next {dstate}.
+Arguments rs_dec {dstate}.
+Arguments rs_store {dstate}.
+
+Fixpoint store_get (i : N) (s : list (N * list N)) : option (list N) :=
+  match s with
+  | [] => None
+  | (k, b) :: r => if k =? i then Some b else store_get i r
+  end.
+
+Section Reader.
+  Variable dstate : Type.
+  Variable filler : dstate -> N -> ares (dstate * list N).
+
+  Fixpoint decode_upto (steps : nat) (bs n : N) (d : dstate) (k i : N) (acc : list (N * list N))
+    : ares (dstate * list (N * list N)) :=
+    match steps with
+    | O => AOutOfFuel
+    | S s =>
+        match filler d (blocksz_at n bs k) with
+        | AOk (d', b) =>
+            if is_nil b then AErr EEmptyBlock
+            else if k =? i then AOk (d', acc ++ [(k, b)])
+            else decode_upto s bs n d' (k + 1) i (acc ++ [(k, b)])
+        | ADone => ADone
+        | AErr e => AErr e
+        | AOutOfFuel => AOutOfFuel
+        end
+    end.
+
+  Definition read_block_m (drop : bool) (bs n : N) (st : rstate dstate) (i : N)
+    : rstate dstate * ares (list N) :=
+    if blockoffset_last n bs <? i then (st, ADone)
+    else match store_get i (rs_store st) with
+         | Some b => (st, AOk b)
+         | None =>
+             if n =? 0 then (st, ADone)
+             else if i <? rs_next st then (st, ADone)
+             else match decode_upto (S (N.to_nat (i - rs_next st))) bs n (rs_dec st) (rs_next st) i [] with
+                  | AOk (d', news) =>
+                      match store_get i news with
+                      | Some b => (mk_rstate (i + 1) d' (if drop then [(i, b)] else rs_store st ++ news), AOk b)
+                      | None => (st, AErr ENoBlock)
+                      end
+                  | ADone => (st, ADone)
+                  | AErr e => (st, AErr e)
+                  | AOutOfFuel => (st, AOutOfFuel)
+                  end
+         end.
+
+  Fixpoint read_blocks_m (drop : bool) (bs n : N) (st : rstate dstate) (reqs : list N)
+    : list (ares (list N)) :=
+    match reqs with
+    | [] => []
+    | i :: r => let '(st', a) := read_block_m drop bs n st i in a :: read_blocks_m drop bs n st' r
+    end.
+End Reader.
+
 (* ---- xz: BlockReader::new decompresses the whole stream into [buffer], then slices it ----
      if buffer.is_empty() { no blocks }
      while blockoffset <= buffer.len() / blocksz {
